@@ -356,6 +356,8 @@ partial def runCircuitOps (fresh : OState × CState × SpecC03.Book) (ck : Close
       let spec :=
         let under := rb.lastNotif.getD false
         let want := if cfg.forceOpen then true else if cfg.forcedClosed then false else under
+        if (kvGet (parseKVs (real.splitOn " ")) "told") == some "0" then
+          "!C08:logic that implements circuit.Configurable was not told the new configuration|C01:custom open/close logic that decides on the configuration was not told it|C11:a live reconfiguration did not reach Configurable logic" else
         if cfg.disabled then "-" else
         if realOpen != want then "!C08:IsOpen after an override change is not ForceOpen / ForcedClosed / the underlying state|C09:IsOpen disagrees with the last notification" else "-"
       runCircuitOps fresh ck c' cfg { rb with openBefore := realOpen } rest (acc.push (s!"open={fmtBool (isOpenEff c')} told=1" ++ "\t" ++ spec))
